@@ -240,6 +240,20 @@ func caseC06(c *Ctx) {
 				realFail = fmt.Sprintf("#%d %s %s: %s", o.Idx, o.Op, o.Path, o.Err)
 			}
 		}
+		opened, closed := 0, 0
+		for _, o := range out.DiskOps {
+			switch o.Op {
+			case "create", "openfile", "open", "createtemp":
+				if o.Err == "" {
+					opened++
+				}
+			case "close":
+				closed++
+			}
+		}
+		if opened > closed && out.Returned {
+			fail("C06:file-left-open:"+mode, "%d files were opened and only %d closed when the call returned %v", opened, closed, out.Err)
+		}
 		if (injected || realFail != "") && out.Err == nil {
 			fail("C06:failed-operation-reported-as-success:"+mode, "a filesystem operation failed (%s %s) and the call returned nil", fault, realFail)
 		}
@@ -454,11 +468,16 @@ func caseC08(c *Ctx) {
 	nontrivial := false
 
 	// ---- step 1: how the directory came to be
-	origin := []string{"mkdir", "mkdir-faulted", "subset", "nothing", "target-missing"}[c.Pick(4, 2, 3, 1, 1)]
-	if origin != "target-missing" {
-		os.MkdirAll(target, 0o755)
-	} else {
+	origin := []string{"mkdir", "mkdir-faulted", "subset", "nothing", "target-missing", "target-is-file"}[c.Pick(8, 4, 6, 2, 2, 1)]
+	switch origin {
+	case "target-missing":
 		hist = append(hist, "the target directory does not exist")
+	case "target-is-file":
+		os.MkdirAll(filepath.Dir(target), 0o755)
+		os.WriteFile(target, []byte("not a directory"), 0o644)
+		hist = append(hist, "the target directory is a regular file")
+	default:
+		os.MkdirAll(target, 0o755)
 	}
 	mkOp := Op{Kind: "mkdir", Exts: exts, Massive: c.Chance(1, 3), FromRoot: op.FromRoot}
 	doc := canonicalDoc(forest)
@@ -497,7 +516,7 @@ func caseC08(c *Ctx) {
 	if !justMade || c.Chance(1, 2) {
 		edits = c.Draw(4)
 	}
-	if origin == "target-missing" {
+	if origin == "target-missing" || origin == "target-is-file" {
 		edits = 0
 	}
 	for e := 0; e < edits; e++ {
@@ -636,6 +655,13 @@ func caseC08(c *Ctx) {
 	}
 	if justMade && out.Err != nil {
 		c.Failf("C08:fresh-mkdir-does-not-verify:"+mode, "a tree just created by %s does not verify (strict=%v): %v", mkOp, op.Strict, out.Err)
+	}
+	if origin == "target-is-file" {
+		// nothing can exist below a regular file: any error will do, nil will not
+		if out.Err == nil {
+			c.Failf("C08:nil-despite-difference:"+mode+":target-is-a-file", "the target directory is a regular file and Verify returned nil")
+		}
+		return
 	}
 	if !anyDiff {
 		if out.Err != nil {
